@@ -78,6 +78,9 @@ type Op struct {
 	// Sub: load: "" = dword(s); "u8", "i8", "u16" = flat_load_ubyte / sbyte / ushort of the byte or
 	// halfword at byte offset Imm (0-3; 0 or 2 for u16) inside element A & (len-1)
 	Sub string `json:"sub,omitempty"`
+	// WaveDep (loop, full work-groups only): wavefront 0 of every work-group runs this many more
+	// iterations, so it reaches whatever follows much later than its siblings
+	WaveDep int `json:"wave_dep,omitempty"`
 	// Rep (sload with N = 1): a burst of Rep (2..MaxSBurst) back-to-back s_load_dword of consecutive
 	// dwords into different registers, waited for together; the value is the XOR of all of them
 	Rep int `json:"rep,omitempty"`
@@ -103,6 +106,10 @@ type Program struct {
 	FinalWait bool `json:"final_wait"`
 	// GFX9 compiles with the gfx9/CDNA3 encodings (for the CDNA3 emulator)
 	GFX9 bool `json:"gfx9,omitempty"`
+	// TrailSLoad (0 = none): the program ends with an s_load_dword into this SGPR that nothing
+	// waits for (a line of output buffer 0 chosen by the work-group id): s_endpgm itself has to
+	// wait for it, or the data arrives in registers that already belong to another wavefront
+	TrailSLoad int `json:"trail_sload,omitempty"`
 	// PackedIDs (with GFX9 only): the code object is marked version 5 (gfx942), for which the
 	// work-item ids arrive packed in v0 as x | y<<10 | z<<20; the prologue unpacks them
 	PackedIDs bool `json:"packed_ids,omitempty"`
@@ -266,6 +273,11 @@ func (p *Program) Validate() error {
 	if p.Slots < 1 || p.Slots > 4 {
 		return fmt.Errorf("slots out of range")
 	}
+	switch p.TrailSLoad {
+	case 0, 2, 8, 9, 10, 12, 22, 24:
+	default:
+		return fmt.Errorf("bad register for the trailing scalar load")
+	}
 	nv := NumBuiltin
 	nlds := 0
 	exited := false
@@ -378,6 +390,9 @@ func (p *Program) Validate() error {
 			}
 			if o.Imm > 6 {
 				err = fmt.Errorf("trip count too large")
+			}
+			if o.WaveDep < 0 || o.WaveDep > 64 || (o.WaveDep > 0 && !g.FullWGs()) {
+				err = fmt.Errorf("bad wavefront-dependent trip count")
 			}
 		case "store":
 			err = ref(o.A)
